@@ -2274,7 +2274,8 @@ XPath::literal(
     const XToken* const     theLiteral = m_expression.getToken(m_expression.getOpCodeMapValue(opPos + 2));
     assert(theLiteral != 0);
 
-    theString = theLiteral->str();
+    // Like every other expression, a literal is appended to the result.
+    theString.append(theLiteral->str());
 }
 
 
@@ -2385,7 +2386,8 @@ XPath::numberlit(
         m_expression.getToken(m_expression.getOpCodeMapValue(opPos + 3));
     assert(theLiteral != 0);
 
-    theString = theLiteral->str();
+    // Like every other expression, a literal is appended to the result.
+    theString.append(theLiteral->str());
 }
 
 
